@@ -74,6 +74,7 @@ type Conn struct {
 	closed  bool
 	rdl     time.Duration // read deadline, absolute sim time, 0 none
 	wdl     time.Duration
+	EPipe   bool // writes fail once the peer's FIN has arrived (net.Pipe semantics), reads still drain
 	Reads   int
 	Writes  int
 	OnWrite func(c *Conn, p []byte) // observation hook, scheduler context of the writer
@@ -209,7 +210,7 @@ func (c *Conn) Write(p []byte) (int, error) {
 	total := 0
 	for {
 		ready := func() bool {
-			return c.closed || c.in.rst || c.windowFree() > 0 || c.peer.closed || (c.wdl != 0 && s.now >= c.wdl)
+			return c.closed || c.in.rst || c.windowFree() > 0 || c.peer.closed || (c.wdl != 0 && s.now >= c.wdl) || (c.EPipe && c.in.fin)
 		}
 		s.Block(c.name+".Write", ready, c.wdl)
 		for !s.aborting && !ready() {
@@ -227,6 +228,11 @@ func (c *Conn) Write(p []byte) (int, error) {
 		if c.wdl != 0 && s.now >= c.wdl {
 			s.Count("net.write_deadline_expired")
 			return total, ErrTimeout
+		}
+		if c.EPipe && c.in.fin {
+			// in-memory transports (net.Pipe) and stacks that already saw the peer go away fail the write at once
+			s.Count("net.write_after_peer_close_failed")
+			return total, ErrReset
 		}
 		if c.peer.closed && c.p.Window > 0 && c.windowFree() == 0 {
 			// peer is gone and will never drain: behave like a broken pipe
